@@ -166,6 +166,18 @@ struct Node
     Node(std::initializer_list<Node> il);
 };
 
+// a second value type, CONSTRUCTIBLE FROM the first one: rules whose left side is an nterm<Node2> return a Node from their
+// functor and rely on the library converting it to the left side's type (not to whatever alternative of its variant fits best)
+struct Node2 : Node
+{
+    Node2() = default;
+    Node2(Node&& n) : Node(std::move(n)) {}
+    Node2(const Node2&) = default;
+    Node2(Node2&&) = default;
+    Node2& operator=(const Node2&) = default;
+    Node2& operator=(Node2&&) = default;
+};
+
 inline void jtree(std::string& o, const std::shared_ptr<Tree>& t)
 {
     if (!t) { o += "null"; return; }
@@ -212,6 +224,8 @@ inline void take_arg(Tree& parent, std::vector<long>& ids, std::vector<long>& li
     ids.push_back(n.t ? n.t->id : -1); lines.push_back(-1); cols.push_back(-1);
     parent.ch.push_back(std::move(n.t));
 }
+inline void take_arg(Tree& parent, std::vector<long>& ids, std::vector<long>& lines, std::vector<long>& cols, Node&& n);
+inline void take_arg(Tree& parent, std::vector<long>& ids, std::vector<long>& lines, std::vector<long>& cols, Node2&& n) { take_arg(parent, ids, lines, cols, static_cast<Node&&>(n)); }
 inline void take_arg(Tree& parent, std::vector<long>& ids, std::vector<long>& lines, std::vector<long>& cols, ctpg::term_value<Node>&& tv)
 {
     const Node& n = tv.get_value();                     // (term_value offers no way to move its value out: read only)
